@@ -2,22 +2,26 @@
 
 Every unit of concurrent work (a request handler of a presence service, a kazoo
 watch callback, a function handed to ``client.handler.spawn``) is a *task*: a
-real thread that only runs while the scheduler has handed it the baton.  The
-fake ZooKeeper calls :meth:`Scheduler.yield_point` at the start of every
-operation (``srv.on_op``); the task parks there and the scheduler (the main
-thread) decides who proceeds.  Exactly one thread runs at any time, so a run is
-a deterministic function of the sequence of choices; there are no sleeps and no
-timing verdicts (the only timeout is a watchdog whose firing is a harness
-error = inconclusive).
+thread of control with its own stack that only runs while the scheduler has
+handed it the baton.  The fake ZooKeeper calls :meth:`Scheduler.yield_point` at
+the start of every operation (``srv.on_op``); the task parks there and the
+scheduler (the main thread of control) decides who proceeds.  Exactly one task
+runs at any time, so a run is a deterministic function of the sequence of
+choices; there are no sleeps and no timing verdicts.
+
+Tasks are greenlets (cooperative threads inside the one OS thread of the
+shard): a switch costs microseconds and does not depend on the load of the
+machine, which is what lets a shard explore thousands of interleavings.  The
+code under test cannot tell the difference: it never blocks anywhere but at a
+ZooKeeper operation (locks it takes through ``client.handler.lock_object()``
+are :class:`CoopLock`, whose contention would be a harness error, not a hang).
 
 A task can be *killed* while parked (its process died: session expiry /
 crash): it is resumed with :class:`Killed` (a BaseException) raised from the
 yield point, any further operation it attempts while unwinding raises again,
 so a dead process never changes the node table.
 """
-import threading
-
-STALL_S = 60.0
+import greenlet
 
 
 class Killed(BaseException):
@@ -25,7 +29,41 @@ class Killed(BaseException):
 
 
 class Stall(RuntimeError):
-    """Harness error: a task did not come back to the scheduler."""
+    """Harness error: the cooperative schedule cannot continue."""
+
+
+class CoopLock:
+    """Lock for code running as tasks of one OS thread: contention cannot be
+    waited out (the holder is parked), so it is reported as a harness error."""
+
+    def __init__(self, reentrant=False):
+        self.reentrant = reentrant
+        self.holder = None
+        self.depth = 0
+
+    def acquire(self, blocking=True, timeout=-1):   # pylint: disable=unused-argument
+        me = greenlet.getcurrent()
+        if self.holder is None or (self.reentrant and self.holder is me):
+            self.holder = me
+            self.depth += 1
+            return True
+        if not blocking:
+            return False
+        raise Stall('lock contention between tasks (holder parked at a yield point)')
+
+    def release(self):
+        self.depth -= 1
+        if self.depth <= 0:
+            self.depth = 0
+            self.holder = None
+
+    def __enter__(self):
+        self.acquire()
+        return self
+
+    def __exit__(self, *exc):
+        self.release()
+        return False
 
 
 class Task:
@@ -44,23 +82,23 @@ class Task:
         self.result = None
         self.ops = 0
         self.first = True
-        self.go = threading.Semaphore(0)
-        self.thread = None
+        self.glet = None
+        self.local = {}             # per-task state the world swaps in (thread-locals of the code under test)
 
     def __repr__(self):
         return '<task %s %s>' % (self.name, self.state)
 
 
 class Scheduler:
-    def __init__(self, on_exec=None):
+    def __init__(self, on_exec=None, on_enter=None, on_leave=None):
         self.live = []              # tasks not finished, creation order
         self.on_exec = on_exec      # on_exec(task|None, client, op, path) right before the op is applied
-        self.error = None           # harness error raised inside a task thread
+        self.on_enter = on_enter    # on_enter(task): the task is about to run
+        self.on_leave = on_leave    # on_leave(task): control is back in the scheduler
+        self.error = None           # harness error raised inside a task
         self.steps = 0
         self.ops = 0
-        self._ident = {}
-        self._back = threading.Semaphore(0)
-        self._main = threading.get_ident()
+        self._main = greenlet.getcurrent()
         self._ntasks = 0
 
     # -- tasks ------------------------------------------------------------
@@ -76,7 +114,6 @@ class Scheduler:
         return t
 
     def _body(self, task):
-        self._ident[threading.get_ident()] = task
         try:
             task.result = task.fn()
         except Killed:
@@ -84,29 +121,30 @@ class Scheduler:
         except BaseException as err:    # pylint: disable=broad-except
             task.exc = err
         finally:
-            self._ident.pop(threading.get_ident(), None)
             task.state = 'done'
-            self._back.release()
 
     def step(self, task):
         """Let the task run until its next yield point (or its end)."""
         assert task.state in ('new', 'blocked'), task
+        assert greenlet.getcurrent() is self._main
         self.steps += 1
         if task.state == 'new':
-            task.state = 'running'
-            task.thread = threading.Thread(target=self._body, args=(task,),
-                                           name=task.name, daemon=True)
-            task.thread.start()
-        else:
-            task.state = 'running'
-            task.go.release()
-        if not self._back.acquire(timeout=STALL_S):
-            raise Stall('task %r did not reach a yield point in %.0fs' % (task, STALL_S))
+            task.glet = greenlet.greenlet(lambda: self._body(task), parent=self._main)
+            task.glet.task = task
+        task.state = 'running'
+        if self.on_enter is not None:
+            self.on_enter(task)
+        try:
+            task.glet.switch()
+        finally:
+            if self.on_leave is not None:
+                self.on_leave(task)
         if self.error is not None:
             raise self.error
         if task.state == 'done':
-            task.thread.join(STALL_S)
             self.live.remove(task)
+        elif task.state != 'blocked':
+            raise Stall('task %r gave up control outside a yield point' % (task,))
         return task
 
     def kill(self, task):
@@ -128,16 +166,16 @@ class Scheduler:
 
     # -- the hook of the fake ------------------------------------------------
     def yield_point(self, client, op, path):
-        ident = threading.get_ident()
-        if ident == self._main:
+        cur = greenlet.getcurrent()
+        if cur is self._main:
             # an atomic (request-granularity) action run inline by the scheduler
             self.ops += 1
             if self.on_exec is not None:
                 self.on_exec(None, client, op, path)
             return
-        task = self._ident.get(ident)
+        task = getattr(cur, 'task', None)
         if task is None:
-            self.error = Stall('ZooKeeper operation %s %s from an unmanaged thread' % (op, path))
+            self.error = Stall('ZooKeeper operation %s %s from an unmanaged thread of control' % (op, path))
             raise self.error
         if task.kill:
             raise Killed()
@@ -146,8 +184,7 @@ class Scheduler:
         else:
             task.pending = (client, op, path)
             task.state = 'blocked'
-            self._back.release()
-            task.go.acquire()
+            self._main.switch()
             task.state = 'running'
             task.pending = None
             if task.kill:
@@ -157,6 +194,6 @@ class Scheduler:
         if self.on_exec is not None:
             try:
                 self.on_exec(task, client, op, path)
-            except Exception as err:    # harness error inside the oracle: surface it in the main thread
+            except Exception as err:    # harness error inside the oracle: surface it in the scheduler
                 self.error = err
                 raise Killed()
